@@ -28,6 +28,7 @@ func VerifH_leasetime4() {
 	r, stop := Handler4(req, resp)
 
 	vnd.Assert(r != nil || stop, "C13 a built-in handler returns a nil response only together with stop")
+	vnd.Assert(r != nil || stop, "C01 no handler passes a nil response on to its successors (they would dereference it)")
 	vnd.Assert(r == resp && !stop, "C17 leasetime passes the response on")
 	got, present := resp.Options[uint8(dhcpv4.OptionIPAddressLeaseTime)]
 	if old != nil {
